@@ -1,5 +1,6 @@
 """property id -> check function(tier, seed, replay) -> exit status"""
 import props_store as ps
+import props_filter as pf
 
 NOTE_STORE = ('theorems are about the tile model coq/Model/{Store,Coll}.v; the model is tied to the code by running '
               'the extracted model and the implementation on the same histories and comparing every step '
@@ -26,4 +27,16 @@ def C07(tier, seed, replay):
     return ps.store_property('C07', tier, seed, ps.hist_C07(tier), NOTE_STORE, replay)
 
 
-REGISTRY = {'C07': C07, 'C01': C01, 'C02': C02, 'C09': C09, 'C16': C16}
+def C13(tier, seed, replay):
+    return pf.filter_property('C13', tier, seed, replay)
+
+
+def C14(tier, seed, replay):
+    return pf.filter_property('C14', tier, seed, replay)
+
+
+def C15(tier, seed, replay):
+    return pf.filter_property('C15', tier, seed, replay)
+
+
+REGISTRY = {'C13': C13, 'C14': C14, 'C15': C15, 'C07': C07, 'C01': C01, 'C02': C02, 'C09': C09, 'C16': C16}
